@@ -9,6 +9,7 @@ import (
 	"reflect"
 	"strconv"
 	"strings"
+	"sync"
 	"time"
 
 	"github.com/brutella/hc/rtp"
@@ -342,6 +343,31 @@ func c17Equal(a, b reflect.Value) bool {
 	}
 }
 
+// Two struct types with the same name (declared in two functions, as two packages called alike would do) and different
+// tags, both used as elements of inline lists in one process.
+func c17LocalA() reflect.Type {
+	type Elem struct {
+		X uint8 `tlv8:"1"`
+	}
+	type Wrap struct {
+		Head  uint8  `tlv8:"9"`
+		Items []Elem `tlv8:"-"`
+	}
+	return reflect.TypeOf(Wrap{})
+}
+
+func c17LocalB() reflect.Type {
+	type Elem struct {
+		Y uint8  `tlv8:"7"`
+		Z uint16 `tlv8:"8"`
+	}
+	type Wrap struct {
+		Head  uint8  `tlv8:"9"`
+		Items []Elem `tlv8:"-"`
+	}
+	return reflect.TypeOf(Wrap{})
+}
+
 type c17Target struct {
 	Name string
 	Type reflect.Type
@@ -353,6 +379,8 @@ func c17Targets() []c17Target {
 		{"Inline", reflect.TypeOf(C17Inline{})},
 		{"BigList", reflect.TypeOf(C17BigList{})},
 		{"HighTags", reflect.TypeOf(C17HighTags{})},
+		{"LocalInlineA", c17LocalA()},
+		{"LocalInlineB", c17LocalB()},
 		{"rtp.SetupEndpoints", reflect.TypeOf(rtp.SetupEndpoints{})},
 		{"rtp.SetupEndpointsResponse", reflect.TypeOf(rtp.SetupEndpointsResponse{})},
 		{"rtp.StreamConfiguration", reflect.TypeOf(rtp.StreamConfiguration{})},
@@ -406,6 +434,21 @@ func c17Roundtrip(c *fw.Ctx, tg c17Target, devs []c17Dev, report bool) string {
 		sigDev = tg.Name + ":base"
 	}
 	cas := c17Case{Kind: "roundtrip", Target: tg.Name, Devs: devs, Labels: labels}
+	c.Breadcrumb("roundtrip-fatal/"+sigDev, tg.Name+" "+strings.Join(labels, " ")+": Marshal / Unmarshal neither returns nor panics: it takes the process down", cas)
+	// every call into the library runs under a liveness guard: code that does not return (and may go on allocating)
+	// is reported and ends this worker
+	timed := func(f func()) interface{} {
+		done := make(chan interface{}, 1)
+		go func() { done <- guard(f) }()
+		select {
+		case p := <-done:
+			return p
+		case <-time.After(30 * time.Second):
+			c.Report("roundtrip-hang/"+sigDev, tg.Name+" "+strings.Join(labels, " ")+": Marshal / Unmarshal does not return within 30 s", cas)
+			c.Abort()
+			return "hang"
+		}
+	}
 	fail := func(sym, desc string) string {
 		if report {
 			// report the 1-minimal failing subset of deviations, so that the signature names the cause
@@ -426,7 +469,7 @@ func c17Roundtrip(c *fw.Ctx, tg c17Target, devs []c17Dev, report bool) string {
 	}
 	var enc []byte
 	var err error
-	if p := guard(func() { enc, err = tlv8.Marshal(v.Interface()) }); p != nil {
+	if p := timed(func() { enc, err = tlv8.Marshal(v.Interface()) }); p != nil {
 		return fail("marshal-panic", fmt.Sprintf("Marshal panics: %v", p))
 	}
 	if err != nil {
@@ -435,7 +478,7 @@ func c17Roundtrip(c *fw.Ctx, tg c17Target, devs []c17Dev, report bool) string {
 	want := c17RefEncode(v)
 	// the returned bytes belong to the caller: a later Marshal of another value must not change them
 	encCopy := append([]byte{}, enc...)
-	if p := guard(func() {
+	if p := timed(func() {
 		other := c17BaseValue(tg.Type)
 		tlv8.Marshal(other.Interface())
 		tlv8.Marshal(C17AllKinds{S: strings.Repeat("Z", 700)})
@@ -446,7 +489,7 @@ func c17Roundtrip(c *fw.Ctx, tg c17Target, devs []c17Dev, report bool) string {
 		return fail("wire-differs", fmt.Sprintf("encoded bytes differ from the little-endian TLV8 reference (got %d bytes, reference %d)", len(enc), len(want)))
 	}
 	back := reflect.New(tg.Type)
-	if p := guard(func() { err = tlv8.Unmarshal(enc, back.Interface()) }); p != nil {
+	if p := timed(func() { err = tlv8.Unmarshal(enc, back.Interface()) }); p != nil {
 		return fail("unmarshal-panic", fmt.Sprintf("Unmarshal of Marshal's output panics: %v", p))
 	}
 	if err != nil {
@@ -460,29 +503,76 @@ func c17Roundtrip(c *fw.Ctx, tg c17Target, devs []c17Dev, report bool) string {
 		return fail("unmarshal-modifies-input", "Unmarshal changed the bytes it was given")
 	}
 	again := reflect.New(tg.Type)
-	if p := guard(func() { err = tlv8.Unmarshal(enc, again.Interface()) }); p != nil || err != nil || !c17Equal(v, again.Elem()) {
+	if p := timed(func() { err = tlv8.Unmarshal(enc, again.Interface()) }); p != nil || err != nil || !c17Equal(v, again.Elem()) {
 		return fail("second-unmarshal-differs", fmt.Sprintf("decoding the same bytes a second time fails or gives another value (%v %v)", p, err))
 	}
 	c.Class("roundtrip:" + tg.Name)
 	return ""
 }
 
+type c17AfterError struct{ msg string }
+
+type c17Ref struct {
+	val reflect.Value
+	enc []byte
+}
+
+var (
+	c17Refs  = map[string]*c17Ref{}
+	c17RefMu sync.Mutex
+)
+
+// c17Reference returns the base value of a target type with its encoding, if that round-trips in this process
+// before anything else was decoded (checked once, at first use).
+func c17Reference(tg c17Target) (*c17Ref, bool) {
+	c17RefMu.Lock()
+	defer c17RefMu.Unlock()
+	if r, ok := c17Refs[tg.Name]; ok {
+		return r, r != nil
+	}
+	v := c17BaseValue(tg.Type)
+	enc, err := tlv8.Marshal(v.Interface())
+	back := reflect.New(tg.Type)
+	if err != nil || tlv8.Unmarshal(enc, back.Interface()) != nil || !c17Equal(v, back.Elem()) {
+		c17Refs[tg.Name] = nil
+		return nil, false
+	}
+	c17Refs[tg.Name] = &c17Ref{val: v, enc: enc}
+	return c17Refs[tg.Name], true
+}
+
 func c17Decode(c *fw.Ctx, tg c17Target, in []byte, sub string) {
 	c.Eval(1)
 	cas := c17Case{Kind: "decode", Target: tg.Name, Input: in, Sub: sub}
+	c.Breadcrumb("decode-fatal/"+tg.Name+"/"+sub, fmt.Sprintf("Unmarshal of %d bytes into %s neither returns nor panics: it takes the process down", len(in), tg.Name), cas)
 	done := make(chan interface{}, 1)
 	go func() {
 		var err error
 		p := guard(func() { err = tlv8.Unmarshal(in, reflect.New(tg.Type).Interface()) })
 		if p != nil {
 			done <- p
-		} else {
-			_ = err
-			done <- nil
+			return
 		}
+		if err != nil {
+			// a rejected input must leave nothing behind: the next, well-formed message decodes as it does in a fresh
+			// process (the reference message of this type, whose round trip was verified at start-up)
+			if ref, ok := c17Reference(tg); ok {
+				back := reflect.New(tg.Type)
+				var e2 error
+				if p2 := guard(func() { e2 = tlv8.Unmarshal(ref.enc, back.Interface()) }); p2 != nil || e2 != nil || !c17Equal(ref.val, back.Elem()) {
+					done <- c17AfterError{fmt.Sprintf("after this rejected input the well-formed reference message of %s no longer decodes to its value (panic %v, error %v)", tg.Name, p2, e2)}
+					return
+				}
+			}
+		}
+		done <- nil
 	}()
 	select {
 	case p := <-done:
+		if ae, ok := p.(c17AfterError); ok {
+			c.Report("decode-after-rejected-input/"+tg.Name, ae.msg, cas)
+			return
+		}
 		if p != nil {
 			msg := fmt.Sprint(p)
 			site := "other"
